@@ -356,7 +356,15 @@ fn eval_book(req: &str) -> ImplOut {
                             let vb = fb.get(i).map(|x| x.1.as_str()).unwrap_or("<none>");
                             if va != vb {
                                 n += 1;
-                                let sig = format!("c24:lost:{aspect}:{name}");
+                                let mut sig = format!("c24:lost:{aspect}:{name}");
+                                if aspect == "cell" && name == "content" && vb.contains('@') && vb.replace('@', "") == va.replace('@', "") {
+                                    // the importer inserts the implicit-intersection operator
+                                    sig.push_str(":at-sign-added");
+                                }
+                                if aspect == "name" && va.replacen('=', "", 1) == vb {
+                                    // "=LAMBDA(..)" stored with its '=' comes back without it
+                                    sig.push_str(":leading-equals");
+                                }
                                 if seen.insert(sig.clone()) {
                                     out = out.fail(&sig, &format!("seed {seed}: {k} {name}: {va} became {vb}"));
                                 }
